@@ -170,6 +170,30 @@ int main() {
           if (w[0] == "cadd") x += y; else if (w[0] == "csub") x -= y; else x *= y;
         }
         std::cout << "ok " << num(x.value()) << "\n";
+      } else if ((w[0] == "rasg" || w[0] == "rsetp" || w[0] == "rcadd" || w[0] == "rcsub" || w[0] == "rcmul") && w.size() == 3) {
+        // statements whose target is an ActiveReference (what A(i) of an active array returns) that refers to variable k:
+        //   rasg k i     ActiveReference::operator=(const ActiveReference&)      (element = element)
+        //   rsetp k c    ActiveReference::operator=(passive)
+        //   rcadd|rcsub|rcmul k c<y>   ActiveReference::operator+= / -= / *= with a passive right-hand side
+        // the reference is bound to a copy of the value, which is written back with set_value (records nothing)
+        long k = atol(w[1].c_str());
+        if (!vars.count(k)) { std::cout << "EXC unknown_handle\n"; continue; }
+        adouble& x = *vars[k];
+        double v = x.value(); ActiveReference<double> ref(v, x.gradient_index());
+        if (w[0] == "rasg") {
+          long i = atol(w[2].c_str());
+          if (!vars.count(i)) { std::cout << "EXC unknown_handle\n"; continue; }
+          double v2 = vars[i]->value(); ActiveReference<double> ref2(v2, vars[i]->gradient_index());
+          const ActiveReference<double>& cr = ref2;
+          ref = cr;
+        } else if (w[0] == "rsetp") ref = atof(w[2].c_str());
+        else {
+          if (w[2][0] != 'c') { std::cout << "bad-op\n"; continue; }
+          double c = atof(w[2].c_str() + 1);
+          if (w[0] == "rcadd") ref += c; else if (w[0] == "rcsub") ref -= c; else ref *= c;
+        }
+        x.set_value(v);
+        if (w[0] == "rsetp") std::cout << "ok\n"; else std::cout << "ok " << num(x.value()) << "\n";
       } else if ((w[0] == "adep" || w[0] == "apdep") && w.size() == 4) {
         long k = atol(w[1].c_str()), i = atol(w[2].c_str());
         if (!vars.count(k) || !vars.count(i)) { std::cout << "EXC unknown_handle\n"; continue; }
@@ -211,6 +235,19 @@ int main() {
           if (add) ref.add_derivative_dependence(rhs, &mult[0], (int)n, stride); else ref.append_derivative_dependence(rhs, &mult[0], (int)n, stride);
         }
         std::cout << "ok\n";
+      } else if (w[0] == "prealloc" && (w.size() == 3 || w.size() == 4)) {
+        // prealloc s|o <n> [m|f]: Stack::preallocate_statements(n) / preallocate_operations(n), through the member function (m,
+        // default) or the free function of the same name (f: acts on the active stack).  The call is put into the H1 event log as
+        // `s<n>` / `o<n>` (the library logs only the growth it causes, which is a consequence); the sizes come with the next `ev`
+        long n = atol(w[2].c_str());
+        bool fr = w.size() == 4 && w[3] == "f";
+        if (n < 0 || (w[1] != "s" && w[1] != "o") || (w.size() == 4 && w[3] != "f" && w[3] != "m")) { std::cout << "bad-op\n"; continue; }
+        if (w[1] == "s") { if (fr) adept::preallocate_statements((uIndex)n); else st->preallocate_statements((uIndex)n); }
+        else { if (fr) adept::preallocate_operations((uIndex)n); else st->preallocate_operations((uIndex)n); }
+#ifdef RJHOGAN_ADEPT_2_VERIF
+        verif::EventLog::buf() += " " + w[1] + w[2];
+#endif
+        std::cout << "ok\n";
       } else if (w[0] == "pause") { st->pause_recording(); std::cout << "ok\n"; }
       else if (w[0] == "cont") { st->continue_recording(); std::cout << "ok\n"; }
       else if (w[0] == "nr") { st->new_recording(); std::cout << "ok\n"; }
@@ -219,6 +256,43 @@ int main() {
         if (!vars.count(k)) { std::cout << "EXC unknown_handle\n"; continue; }
         if (w[0] == "indep") st->independent(*vars[k]); else st->dependent(*vars[k]);
         std::cout << "ok\n";
+      } else if (w[0] == "indepn" || w[0] == "depn" || w[0] == "getgn" || w[0] == "getvn" || w[0] == "setgn" || w[0] == "setvn") {
+        // the POINTER-AND-COUNT forms: Stack::independent(const A* x, n) / dependent(const A* x, n)   indepn|depn h1 h2 ..
+        // and the free functions on arrays of Active (Active.h): set_gradients / set_values              setgn|setvn h1 v1 h2 v2 ..
+        //                                                        get_gradients / get_values              getgn|getvn h1 h2 ..
+        // The API wants the objects contiguous: bitwise images of the live variables (never constructed or destroyed, see adepv);
+        // set_values writes the value member of the image, which is copied back to the variable afterwards.
+        bool pairs = w[0] == "setgn" || w[0] == "setvn";
+        if (pairs && (w.size() - 1) % 2 != 0) { std::cout << "bad-op\n"; continue; }
+        size_t n = pairs ? (w.size() - 1) / 2 : w.size() - 1;
+        std::vector<long> hs; std::vector<double> data(n + 2, -777.0);
+        bool okh = true;
+        for (size_t j = 0; j < n; ++j) {
+          long h = atol(w[1 + (pairs ? 2 * j : j)].c_str());
+          if (!vars.count(h)) okh = false;
+          hs.push_back(h);
+          if (pairs) data[1 + j] = atof(w[2 + 2 * j].c_str());
+        }
+        if (!okh) { std::cout << "EXC unknown_handle\n"; continue; }
+        typedef std::aligned_storage<sizeof(adouble), alignof(adouble)>::type Raw;
+        std::vector<Raw> raw(n + 1);
+        for (size_t j = 0; j < n; ++j) std::memcpy(&raw[j], vars[hs[j]], sizeof(adouble));
+        adouble* a = reinterpret_cast<adouble*>(&raw[0]);
+        const adouble* ca = a;
+        if (w[0] == "indepn") { st->independent(ca, (uIndex)n); std::cout << "ok\n"; }
+        else if (w[0] == "depn") { st->dependent(ca, (uIndex)n); std::cout << "ok\n"; }
+        else if (w[0] == "setgn") { adept::set_gradients(a, (Index)n, &data[1]); std::cout << "ok\n"; }
+        else if (w[0] == "setvn") {
+          adept::set_values(a, (Index)n, &data[1]);
+          for (size_t j = 0; j < n; ++j) std::memcpy(vars[hs[j]], &raw[j], sizeof(adouble));
+          std::cout << "ok\n";
+        } else {
+          if (w[0] == "getgn") adept::get_gradients(ca, (Index)n, &data[1]); else adept::get_values(ca, (Index)n, &data[1]);
+          if (data[0] != -777.0 || data[n + 1] != -777.0) { std::cout << "GUARD\n"; continue; }
+          std::cout << (w[0] == "getgn" ? "G" : "V");
+          for (size_t j = 0; j < n; ++j) std::cout << " " << num(data[1 + j]);
+          std::cout << "\n";
+        }
       } else if (w[0] == "clri") { st->clear_independents(); std::cout << "ok\n"; }
       else if (w[0] == "clrd") { st->clear_dependents(); std::cout << "ok\n"; }
       else if (w[0] == "clrg") { st->clear_gradients(); std::cout << "ok\n"; }
